@@ -177,6 +177,12 @@ for _header in (b'Server: nginx', b'Age: 1', b'Pragma: no-cache', b'ETag: "x"', 
         SHAPES['http_%s_lines_bare_%s' % (_header.split(b':')[0].decode().lower(), _eol_name)] = (
             H + 'HttpHeaderFields', (lambda line, eol: lambda k: (line + eol) * k + eol)(_header, _eol), 40)
 
+# lines of other data before the SSH identification string (RFC 4253 4.2 allows a server to send them)
+for _line_name, _line in (('hash', b'#\r\n'), ('text', b'Welcome to this host\r\n'), ('lf', b'x\n'), ('empty', b'\r\n')):
+    SHAPES['ssh_banner_after_%s_lines' % _line_name] = (
+        'cryptoparser.ssh.subprotocol.SshProtocolMessage',
+        (lambda line: lambda k: line * (k * 10) + b'SSH-2.0-OpenSSH_8.9\r\n')(_line), 40)
+
 SHAPE_NAMES = sorted(SHAPES)
 SCALES = (1, 2, 4, 8, 16)
 
